@@ -75,5 +75,19 @@ Proof.
 Qed.
 Print Assumptions C10_code_make_incompressible_is_model.
 
+(* ... and the SOURCE text of ProjectedConvection3d (Gen/NonlinFuns.v, harness/translate/nonlin.py, tied to the term model in Tie/NonlinTie.v)
+   returns, for EVERY input state, mask and product operators, a field whose divergence vanishes at every mode with non-zero Laplace symbol:
+   its last operation is the Leray projection, which is leray_mode mode by mode (Tie/LerayTie.v) *)
+From EXV Require Import Nonlin.Conv Nonlin.Terms Gen.NonlinFuns Tie.NonlinTie Tie.LerayTie.
+Theorem C10_code_projected_convection_is_divergence_free : forall (F : FieldT) (M : field F -> field F) (P2 : field F -> field F -> field F)
+    (P3 : field F -> field F -> field F -> field F) (ii s ND : F) (us : list (field F)) (k : idx),
+  lapm F (dvec F ii s k) <> 0 ->
+  divm F (dvec F ii s k) (map (fun i => nth i (gen_projected_conv F M P2 P3 ii s 3 ND us) (fzero F) k) [0; 1; 2]%nat) = 0.
+Proof.
+  intros F M P2 P3 ii s ND us k Hn. cbn [map]. rewrite !projected_conv_tie. unfold projected_conv, cross. cbv zeta.
+  match goal with |- divm _ _ [nth 0 (leray _ _ _ _ [?a; ?b; ?c]) _ _; _; _] = _ => exact (leray_output_divergence_free F ii s a b c k Hn) end.
+Qed.
+Print Assumptions C10_code_projected_convection_is_divergence_free.
+
 Example C10_ex_rationals_formally_real : FormallyRealL QcField.
 Proof. exact Qc_formally_real_list. Qed.
